@@ -192,20 +192,22 @@ pub fn decode_regular(rsm: RawSourceMap) -> Result<SourceMap> {
                 if nums.len() != 4 && nums.len() != 5 {
                     fail!(Error::BadSegmentSize(nums.len() as u32));
                 }
-                src_id = (i64::from(src_id) + nums[1]) as u32;
-                if src_id >= sources.len() as u32 {
-                    fail!(Error::BadSourceReference(src_id));
+                let new_src_id = i64::from(src_id) + nums[1];
+                if new_src_id < 0 || new_src_id >= sources.len() as i64 {
+                    fail!(Error::BadSourceReference(new_src_id as u32));
                 }
+                src_id = new_src_id as u32;
 
                 src = src_id;
                 src_line = (i64::from(src_line) + nums[2]) as u32;
                 src_col = (i64::from(src_col) + nums[3]) as u32;
 
                 if nums.len() > 4 {
-                    name_id = (i64::from(name_id) + nums[4]) as u32;
-                    if name_id >= names.len() as u32 {
-                        fail!(Error::BadNameReference(name_id));
+                    let new_name_id = i64::from(name_id) + nums[4];
+                    if new_name_id < 0 || new_name_id >= names.len() as i64 {
+                        fail!(Error::BadNameReference(new_name_id as u32));
                     }
+                    name_id = new_name_id as u32;
                     name = name_id;
                 }
             }
